@@ -338,3 +338,145 @@ class Associativity(E2Contract):
                                  "post-measurement state of outcome idx == (unnormalised branch operator) / p"))
         cl.append(true("some-bracketing-supported", n_supported >= 2, "the flat call and at least one bracketing are supported"))
         return cl
+
+
+class ZeroProbabilityBranch(E2Contract):
+    """an outcome of exactly zero probability: probability 0, zero post-state, the rest unchanged"""
+    name = "compose(MProcess, State) with a zero-probability outcome"
+    prop = "C06"
+    targets = (OPS + ":_compose_qoperations_MProcess_State_for_States",)
+    max_paths = 16
+
+    def configs(self, tier):
+        return [("1q", 3, 0), ("1q", 3, 1)] + ([("1qt", 3, 0)] if tier == "thorough" else [])
+
+    def inputs(self, W, cfg, mk):
+        s, m, zero = cfg
+        np = W.np
+        c_sys = make_csys(W, s)
+        n = c_sys.dim ** 2
+        st = param_obj(W, mk, "state", c_sys, 0, "s")
+        # hss[zero] is the zero map; the others are symbolic and sum to a trace-preserving map
+        mp_full = param_obj(W, mk, "mprocess", c_sys, m - 1, "m")
+        hss = list(mp_full.hss)
+        hss.insert(zero, np.zeros((n, n), dtype=np.float64))
+        mp = W.mod("quara.objects.mprocess").MProcess(c_sys, hss, is_physicality_required=False)
+        kind, ref = spec_chain(W, c_sys, [("mprocess", list(mp_full.hss)), ("state", [st.vec])])
+        for idx, v in ref.items():
+            mk.require(v[0] >= 2 * EPS)
+        return dict(mp=mp, st=st, ref=ref)
+
+    def sample(self, cfg, names, rng):
+        vals = {n: rng.uniform(-0.05, 0.05) for n in names}
+        s, m, zero = cfg
+        d = DIMS[s]
+        for x in range(m - 2):
+            vals[f"m_{x * d ** 4}"] = 1.0 / (m - 1) + rng.uniform(-0.03, 0.03)
+        return vals
+
+    def run(self, W, cfg, inp):
+        r = W.mod(OPS).compose_qoperations(inp["mp"], inp["st"])
+        return dict(ps=r.prob_dist.ps, states=[x.vec for x in r.states])
+
+    def post(self, W, cfg, inp, out):
+        s, m, zero = cfg
+        S = W.S
+        c_sys = inp["st"].composite_system
+        ref = inp["ref"]
+        cl = [eq("zero-outcome/probability", out["ps"][zero], 0, "the impossible outcome has probability exactly 0"),
+              eq("zero-outcome/state", out["states"][zero], 0 * out["states"][zero], "its post-measurement state is the zero vector")]
+        others = [x for x in range(m) if x != zero]
+        for k, x in enumerate(others):
+            cl.append(eq(f"other-outcome[{x}]/probability", out["ps"][x], ref[(k,)][0], "the other probabilities are the Born probabilities"))
+            cl.append(eq(f"other-outcome[{x}]/state", S.op_from_vec(c_sys, out["states"][x]) * ref[(k,)][0], ref[(k,)][1],
+                         "and their post-states are Lambda_x(rho)/p_x"))
+        return cl
+
+
+def _near_mixed_povm_sample(cfg, names, rng):
+    import math
+    s, m, mode = cfg
+    d = DIMS[s]
+    vals = {n: rng.uniform(-0.12, 0.12) for n in names}
+    for x in range(m - 1):
+        vals[f"p_{x * d * d}"] = math.sqrt(d) / m + rng.uniform(-0.05, 0.05)
+    for n in names:
+        if n.startswith("rho"):
+            vals[n] = rng.uniform(-1, 1)
+    return vals
+
+
+class GenerateMProcess(E2Contract):
+    """Povm.generate_mprocess: the generated measurement process induces the POVM and has the stated back-action"""
+    name = "Povm.generate_mprocess"
+    prop = "C06"
+    targets = ("quara.objects.povm:Povm.generate_mprocess", "quara.objects.mprocess:MProcess.to_povm", "quara.objects.gate:convert_hs")
+    max_paths = 16
+    frame = False
+
+    def configs(self, tier):
+        return [("1q", 2, 2), ("1q", 3, 2), ("1q", 2, 0), ("1q", 2, 1)] + ([("1qt", 2, 2), ("1q", 3, 0)] if tier == "thorough" else [])
+
+    def inputs(self, W, cfg, mk):
+        s, m, mode = cfg
+        c_sys = make_csys(W, s)
+        povm = param_obj(W, mk, "povm", c_sys, m, "p")
+        d = c_sys.dim
+        post = [param_obj(W, mk, "state", c_sys, 0, f"s{x}") for x in range(m)] if mode == 2 else None
+        if mode == 1:
+            # non-degenerate spectra (the degenerate case groups equal FLOATS in a dict: not expressible symbolically)
+            for x in range(m):
+                w, _ = W.np.linalg.eigh(W.S.op_from_vec(c_sys, povm.vecs[x]))
+                for k in range(d - 1):
+                    mk.require(w[k] < w[k + 1])
+        return dict(povm=povm, post=post, rho=mk.hermitian("rho", d))
+
+    def sample(self, cfg, names, rng):
+        return _near_mixed_povm_sample(cfg, names, rng)
+
+    def run(self, W, cfg, inp):
+        s, m, mode = cfg
+        mp = inp["povm"].generate_mprocess(mode_backaction=mode, post_selected_states=inp["post"])
+        return dict(hss=list(mp.hss), to_povm=list(mp.to_povm().vecs))
+
+    def post(self, W, cfg, inp, out):
+        s, m, mode = cfg
+        S = W.S
+        np = W.np
+        povm = inp["povm"]
+        c_sys = povm.composite_system
+        rho = inp["rho"]
+        atol = W.mod("quara.settings").Settings.get_atol()
+        cl = []
+        for x in range(m):
+            Mx = S.op_from_vec(c_sys, povm.vecs[x])
+            img = S.apply_hs(c_sys, out["hss"][x], rho)
+            if mode == 2:
+                want = S.trace(Mx @ rho) * S.op_from_vec(c_sys, inp["post"][x].vec)
+                cl.append(eq(f"back-action[{x}]", img, want, "mode 2: Lambda_x(rho) == Tr(M_x rho) * post_selected_state_x"))
+                cl.append(eq(f"induces-the-povm[{x}]", out["to_povm"][x], povm.vecs[x], "to_povm() of the generated process is the POVM"))
+            elif mode == 0:
+                X = W.scipy.linalg.sqrtm(Mx)
+                want = X @ rho @ S.dagger(X)
+                exact = S.hs_from_kraus(c_sys, [X])
+                cl.append(true(f"back-action[{x}]", S.truncated(out["hss"][x], exact, atol),
+                               "mode 0: HS of rho -> sqrt(M_x) rho sqrt(M_x)^dagger (sqrtm trusted), up to the truncation rule"))
+            else:
+                w, V = np.linalg.eigh(Mx)
+                d = c_sys.dim
+                # Lueders back-action: rho -> sum over DISTINCT eigenvalues  w * P_w rho P_w,  P_w the eigenprojector
+                groups = []
+                for k in range(d):
+                    vk = V[:, k].reshape((d, 1))
+                    Pk = vk @ np.conjugate(vk).T
+                    if k > 0 and bool(w[k] == w[k - 1]):
+                        groups[-1] = (groups[-1][0], groups[-1][1] + Pk)
+                    else:
+                        groups.append((w[k], Pk))
+                exact = None
+                for wk, Pw in groups:
+                    term = wk * S.hs_from_kraus(c_sys, [Pw])
+                    exact = term if exact is None else exact + term
+                cl.append(true(f"back-action[{x}]", S.truncated(out["hss"][x], exact, atol),
+                               "mode 1: HS of rho -> sum_w w P_w rho P_w with P_w the spectral projectors of M_x (eigh trusted), up to the truncation rule"))
+        return cl
